@@ -180,3 +180,90 @@ func H_C07_errors() {
 	}
 	vreach("end")
 }
+
+// H_C07_terminal: "false forever" over histories in which other runs of the same code
+// start, advance and finish while the exhausted (or cancelled) iterator is still held:
+// the old iterator keeps answering false and the other runs yield what they yield alone.
+func H_C07_terminal() {
+	p := nondetChoice(len(c07Progs))
+	vlabel("prog", c07Progs[p])
+	code := c07Code(p)
+	if code == nil || c07Silent(p) {
+		return
+	}
+	in1 := []any{1, 2, 3} // the schedule is the symbolic part here; the values are fixed
+	in2 := []any{5, 0}
+	alone := hRun(code, hDeepCopy(in2), 8, 9)
+	var it1 Iter
+	how := nondetChoice(2)
+	if how == 0 {
+		it1 = code.Run(in1, 7)
+	} else {
+		k := nondetInt()
+		vassume(0 <= k)
+		vassume(k <= vparam("tpolls", 12))
+		c := &c07ctx{k: k, closed: make(chan struct{}), open: make(chan struct{})}
+		close(c.closed)
+		it1 = code.RunWithContext(c, in1, 7)
+	}
+	ended := false
+	for i := 0; i < 10; i++ {
+		if _, ok := it1.Next(); !ok {
+			ended = true
+			break
+		}
+	}
+	if !ended {
+		return
+	}
+	// a symbolic schedule of: extra Next on the old iterator / start a new run / advance a new run
+	var its []Iter
+	var outs [][]any
+	var done []bool
+	for step := 0; step < vparam("steps", 4); step++ {
+		switch nondetChoice(3) {
+		case 0:
+			v, ok := it1.Next()
+			vassert(!ok && v == nil, "after Next has returned false it returns false forever, whatever other runs do")
+		case 1:
+			if len(its) < 2 {
+				its = append(its, code.Run(hDeepCopy(in2), 9))
+				outs = append(outs, nil)
+				done = append(done, false)
+			}
+		default:
+			if len(its) > 0 {
+				j := nondetChoice(len(its))
+				if !done[j] && len(outs[j]) < 8 {
+					v, ok := its[j].Next()
+					if !ok {
+						done[j] = true
+					} else {
+						outs[j] = append(outs[j], v)
+						if _, isErr := v.(error); isErr {
+							done[j] = true // compared up to the first error, as hRun does
+						}
+					}
+				}
+			}
+		}
+	}
+	// finish the other runs: each yields exactly what the run yields alone
+	for j := range its {
+		for !done[j] && len(outs[j]) < 8 {
+			v, ok := its[j].Next()
+			if !ok {
+				done[j] = true
+				break
+			}
+			outs[j] = append(outs[j], v)
+			if _, isErr := v.(error); isErr {
+				done[j] = true
+			}
+		}
+		hSameOutputs(outs[j], alone, "a run started while an exhausted iterator is still held")
+		v, ok := it1.Next()
+		vassert(!ok && v == nil, "the exhausted iterator still answers false after other runs finished")
+	}
+	vreach("end")
+}
